@@ -11,6 +11,7 @@ import Driver.Ops.Policy
 import Driver.Ops.Pool
 import Driver.Ops.RelaySession
 import Driver.Ops.Proxy
+import Driver.Ops.QueueM
 import Driver.Ops.Relay
 import Driver.Ops.Reply
 import Driver.Ops.Sched
@@ -35,6 +36,7 @@ def dispatch (line : String) : String :=
   | "pool" :: rest => poolOp rest
   | "relaysession" :: rest => relaySessionOp rest
   | "proxy" :: rest => proxyOp rest
+  | "qm" :: rest => qmOp rest
   | "relay" :: rest => relayOp rest
   | "reply" :: rest => replyOp rest
   | "sched" :: rest => schedOp rest
